@@ -22,7 +22,7 @@ open Witverif.Async Witverif.Async.Task Witverif.Async.UnitHost Witverif.Generat
 
 inductive Instr
   | new (k : Nat) | poll (k : Nat) | await (k : Nat) | drop (k : Nat) | wait | yield
-  | spawn (j : Nat) | capture (n : Nat) | wake (n : Nat) | wdrop (n : Nat) | guard (n : Nat) | ret
+  | spawn (j : Nat) | capture (n : Nat) | wake (n : Nat) | wdrop (n : Nat) | guard (n : Nat) | ret | detach (k : Nat)
 deriving DecidableEq, Repr
 
 inductive Dir
@@ -80,6 +80,7 @@ structure Sys where
   wakers : List (Option WRef) := [none, none, none, none]
   opWaker : List (Nat × WRef) := []
   spawned : List Nat := []
+  detached : List (Nat × Nat × Fut) := []   -- (call, task it was polled under, future): moved out of their body
   dirs : List Dir := []
   log : List Ev := []
   panicked : Bool := false
@@ -279,6 +280,12 @@ def execInstr (s : Sys) (j : Nat) (cx : WRef) : Instr → Sys × BodyRes
   | .guard n =>
     let b := s.getBody j
     ((s.setBody j { b with guards := b.guards ++ [n] }).emit [.x .arm [n]], .next)
+  | .detach k =>
+    match getSlot (s.getBody j) k with
+    | none => (s.emit [.x .detachNone [k]], .next)
+    | some f =>
+      let s1 := s.setBody j (setSlot (s.getBody j) k none)
+      ({ s1 with detached := s1.detached ++ [(k, (s.getBody j).task, f)] }.emit [.x .detach [k]], .next)
   | .ret =>
     let b := s.getBody j
     if b.tc then ((s.setBody j { b with tc := false }).emit [.x .taskReturn []], .next)
@@ -430,7 +437,19 @@ def runCabiCallback (s : Sys) (w code : Nat) : Sys :=
   | some sub =>
     let k := sub.k
     match (List.range s.bodies.length).find? fun j => (getSlot (s.getBody j) k).isSome with
-    | none => (s.emit [.other "!model-dangling-callback"]).panicNow
+    | none =>
+      -- a future that was moved out of its body
+      match s.detached.find? fun (d : Nat × Nat × Fut) => d.1 == k with
+      | none => (s.emit [.other "!model-dangling-callback"]).panicNow
+      | some (_, t, f) =>
+        let (s1, r) := s.runStep fun _ => f.wake code
+        match r with
+        | none => s1
+        | some f' =>
+          let s2 := { s1 with detached := s1.detached.map fun (d : Nat × Nat × Fut) => if d.1 == k then (k, t, f') else d }
+          match (s2.opWaker.find? (·.1 == k)).map (·.2) with
+          | some wr => s2.wakeRef wr
+          | none => s2
     | some j =>
       match getSlot (s.getBody j) k with
       | none => s
@@ -659,6 +678,11 @@ def Sys.init (sc : Script) (b : Build) : Sys :=
     dirs := if sc.driver = .block then sc.dirs else [] }
 
 def finish (s : Sys) : Sys :=
+  -- detached call futures are dropped, outside every task
+  let s := s.detached.foldl (fun (s : Sys) (d : Nat × Nat × Fut) =>
+    if s.panicked then s else
+    let s0 := { s with detached := s.detached.filter fun (x : Nat × Nat × Fut) => x.1 != d.1 }.emit [.x .detachDrop [d.1]]
+    (s0.runStep fun ans => d.2.2.drop (s0.env d.2.1) ans).1) s
   -- captured wakers are released (they may hold the last reference to a task's state)
   let s1 := (List.range s.wakers.length).foldl (fun s n =>
     if (s.wakers[n]?.join).isSome then s.dropSlot n .wend .wend else s) { s with panicked := false }
